@@ -312,10 +312,21 @@ class GuardedMoves(ir.Client):
     def assume(self, c, pol, st, env, node):
         facts, written = st
         c = strip(c)
-        if ir.is_call(c, ("memIsDisjoint2",)) and pol and len(c["a"]) == 4:
+        while c.get("k") == "Un" and c.get("op") == "!":
+            c, pol = strip(c["e"]), not pol
+        if ir.is_call(c, ("memIsDisjoint2",)) and len(c["a"]) == 4:
             a = (self.canon(c["a"][0]), self.canon(c["a"][1]))
             b = (self.canon(c["a"][2]), self.canon(c["a"][3]))
-            facts = facts | {(a, b), (b, a)}
+            # the same test of the same regions cannot come out both ways on one path (a case analysis by
+            # elimination: `while (!A && !B && !C && !D) ..; if (A) .. else if (B) .. else if (C) .. else /* D */`)
+            if pol:
+                if ("not", a, b) in facts:
+                    return None
+                facts = facts | {(a, b), (b, a)}
+            else:
+                if (a, b) in facts:
+                    return None
+                facts = facts | {("not", a, b), ("not", b, a)}
         return (facts, written)
 
     def eval(self, e, st, env, node):
